@@ -18,6 +18,7 @@ RULE = (
     "types), beatvalues (random event lists, six-place decimals), timing_string (blanks/line breaks "
     "around rows), timingdata (strings through a parsed SM/SSC simfile). A case is non-trivial unless it "
     "is the zero beat / empty list; distinct by its canonical JSON."
+    ' Round 5: rows out of beat order.'
 )
 EXHAUSTIVE_PART = "tick_text over every k/48 with |k| <= 96000 (192001 beats)"
 ASSUMPTIONS = [
